@@ -1096,7 +1096,11 @@ def _lint_rule_summary(repo: Repo, lm: Any, c: Any, chk: Any) -> Dict[str, Any]:
     prm = [a_.arg for a_ in chk_node.args.args]
     dname = prm[1] if len(prm) > 1 else "definition"
     nname = prm[2] if len(prm) > 2 else "name"
-    flow = PyFlow(funcs={k: v.node for k, v in lm.funcs.items()}, methods={k: v.node for k, v in c.methods.items()}, havoc_on=(), pure=("pascal_case", "snake_case", "upper_case", "isupper", "upper", "fields"))
+    mro_methods: Dict[str, Any] = {}
+    for k_c in get_model(repo).mro(c):
+        for nm_, fi_ in k_c.methods.items():
+            mro_methods.setdefault(nm_, fi_.node)
+    flow = PyFlow(funcs={k: v.node for k, v in lm.funcs.items()}, methods=mro_methods, havoc_on=(), pure=("pascal_case", "snake_case", "upper_case", "isupper", "upper", "fields"), inline_filter=lambda n_, f_: "raise NotImplementedError" not in src_of(f_))
     env = {prm[0]: V("self"), dname: V("definition")}
     if len(prm) > 2:
         env[nname] = V("name")
@@ -1187,10 +1191,10 @@ def c7(repo: Repo) -> RuleResult:
     for c in lm.classes.values():
         if c is base or not m.is_subclass(c, base):
             continue
-        tc = c.methods.get("target_class")
-        chk = c.methods.get("check")
-        if tc is None or chk is None:
-            continue
+        tc = m.lookup(c, "target_class")
+        chk = m.lookup(c, "check")
+        if tc is None or chk is None or tc.cls is base or chk.cls is base:
+            continue  # abstract (intermediate) classes: their concrete subclasses are the rules
         target = next((n.value.id for n in ast.walk(tc.node) if isinstance(n, ast.Return) and isinstance(n.value, ast.Name)), None)
         try:
             sm = _lint_rule_summary(repo, lm, c, chk)
